@@ -67,6 +67,14 @@ CHECKS["C12"] = (
     "DESIGN.md section 2 / C12",
 )
 
+CHECKS["C11"] = (
+    "stateful proptest histories (sequential / repeated-builder / concurrent / schedule-change steps) in one worker process vs references from fresh processes; invariant over the history",
+    "exploration",
+    "For each drawn pool of inputs (repository headers, generated declaration graphs and extern-heavy programs, some with depfile or static-function wrappers) the bindings text, depfile, wrapper source and callback notification sequence are taken in several fresh processes under two work-list schedules and must coincide; then a generated history of up to 50 steps runs in one further process, including clones of one builder generating repeatedly and 2..16 threads generating the same or different inputs at once, and every produced output must equal its input's reference.",
+    "Thread interleavings and libclang-internal state are explored by stress only (the harness does not own the schedule); per-process randomness is whatever the OS and std provide across worker processes.",
+    "DESIGN.md section 2 / C11",
+)
+
 NOT_YET = {}
 
 def main():
